@@ -43,3 +43,31 @@ theorem foldl_weight_ones {K : Type} [Field K] (l : List ((K × K) × Nat × Nat
     exact ih (fun t ht => h t (by simp [ht])) const
 end OdlModel.Wavelet
 
+
+namespace OdlModel.Wavelet
+theorem crop_rule_aux (n r : Nat) (h : reconLenOk n r = true) : cropLen r n = .ok n := by
+  simp only [reconLenOk, Bool.or_eq_true, beq_iff_eq, Bool.and_eq_true] at h
+  unfold cropLen
+  rcases h with h | ⟨h, _⟩
+  · subst h; simp
+  · subst h; simp
+end OdlModel.Wavelet
+
+namespace OdlModel.Wavelet
+theorem mapM_crop (recon intended : List Nat) (hlen : recon.length = intended.length)
+    (hok : ∀ p ∈ recon.zip intended, reconLenOk p.2 p.1 = true) :
+    (recon.zip intended).mapM (fun (p : Nat × Nat) => cropLen p.1 p.2) = Except.ok intended := by
+  induction recon generalizing intended with
+  | nil => cases intended with
+    | nil => rfl
+    | cons a t => simp at hlen
+  | cons r rs ih =>
+    cases intended with
+    | nil => simp at hlen
+    | cons n ns =>
+      have h1 : cropLen r n = .ok n := crop_rule_aux n r (hok (r, n) (by simp))
+      have h2 := ih ns (by simpa using hlen) (fun p hp => hok p (by simp [hp]))
+      simp only [List.zip_cons_cons, List.mapM_cons, h1, h2]
+      rfl
+
+end OdlModel.Wavelet
